@@ -163,7 +163,22 @@ class ProofGate:
         self.driver_ok = bok and os.path.exists(DRIVER)
         if not self.driver_ok:
             self.details.append("driver build failed: " + out[-1500:])
-        bok, out, dt = lake_build(self.modules)
+        # the kernel-decided facts about the regenerated built-in table, evaluated first by compiled code:
+        # deciding a *false* instance in the kernel can take unboundedly long, so it is not attempted
+        table_dependent = any(m in ("CassisModel.Proofs.TypeSystem", "CassisModel.Proofs.Features")
+                              for m in import_closure(self.modules))
+        if table_dependent and self.driver_ok:
+            try:
+                sc = Driver().run([{"k": "selfcheck"}])[0].get("ok", {})
+            except Exception as e:  # noqa: BLE001
+                sc = {"selfcheck failed to run: " + repr(e)[:200]: False}
+            bad = [k for k, v in sc.items() if not v]
+            if bad:
+                self.details.append("obligations about the regenerated built-in table are false (evaluated by the "
+                                    "compiled model, kernel check not attempted): " + "; ".join(bad))
+                self.failed_theorems = ["Cassis.TS.builtins_replay / consistent_builtins / featInv_builtins: " + b for b in bad]
+                return self
+        bok, out, dt = lake_build(self.modules, timeout=900)
         self.build_s += dt
         if not bok:
             self.details.append("lake build of " + " ".join(self.modules) + " failed: " + out[-3000:])
